@@ -98,6 +98,8 @@ impl ArrSpec {
         match self {
             ArrSpec::Never => Rc::new(Never {}),
             ArrSpec::Periodic { t } => Rc::new(Periodic::new(d(*t))),
+            // both constructors are exercised: jitter-free specs with an odd period use `new_zero_jitter`
+            ArrSpec::Sporadic { t, j } if *j == 0 && *t % 2 == 1 => Rc::new(Sporadic::new_zero_jitter(d(*t))),
             ArrSpec::Sporadic { t, j } => Rc::new(Sporadic::new(d(*t), d(*j))),
             ArrSpec::Curve { dmin, extrapolating } => {
                 let c = Curve::new(dmin.iter().map(|x| d(*x)).collect());
@@ -121,6 +123,10 @@ impl ArrSpec {
             ArrSpec::CurveFromAcp { inner } => Rc::new(Curve::from(&inner.build_acp())),
             ArrSpec::CurveFromPeriodic { t } => Rc::new(Curve::from(Periodic::new(d(*t)))),
             ArrSpec::CurveFromSporadic { t, j } => Rc::new(Curve::from(Sporadic::new(d(*t), d(*j)))),
+            // both construction paths: odd rates go through `Poisson::approximate`
+            ArrSpec::Poisson { rate_milli, eps_milli } if *rate_milli % 2 == 1 => {
+                Rc::new(arrival::Poisson { rate: *rate_milli as f64 / 1000.0 }.approximate(*eps_milli as f64 / 1000.0))
+            }
             ArrSpec::Poisson { rate_milli, eps_milli } => Rc::new(arrival::ApproximatedPoisson::new(*rate_milli as f64 / 1000.0, *eps_milli as f64 / 1000.0)),
             ArrSpec::CurveFromIter { vals, extrapolating } => {
                 let c: Curve = vals.iter().map(|x| d(*x)).collect();
